@@ -11,6 +11,8 @@ import ConfModel.Lemmas.H2DataSpec
 import ConfModel.Lemmas.H2E2EConn
 import ConfModel.Lemmas.H2E2EExamples
 import ConfModel.Spec.H2
+import ConfModel.Model.H2CallerBuf
+import ConfModel.Lemmas.CallerBuf
 namespace ConfModel.Props.C15
 open ConfModel.H2 ConfModel.H2.Machine
 
@@ -509,5 +511,52 @@ theorem transparent (inner : Nat × IOErr × Bytes) : Conn.result inner = inner 
 /-- … for every call of the extended alphabet: bytes together with any error on `Read`, any
 count `n` (short or not) together with any error on `Write`. -/
 theorem transparent_call (call : Call) : Conn.result call.inner = call.inner := rfl
+
+/-! ### a caller that reuses one array per direction -/
+
+open ConfModel.CallerBuf in
+/-- **Chunk values suffice.**  A caller that reuses one array for all its `Read`s (and one for
+all its `Write`s) — refilling it arbitrarily between calls, handing the wrapper a window at any
+offset, with spare capacity — drives the three-layer model exactly like a caller that passes a
+fresh slice per call: final state (stream table, collector, both frame tracers) and wire events
+depend on the *values* in the windows only, i.e. on the chunks.  This is the aliasing-freedom
+contract `http2FrameTracer` has to keep (copy what it remembers of `data`; never write through
+it); the harness observes it by running every script in the reusing discipline as well. -/
+theorem reused_buffer_values_suffice (decR decW : H2.Bytes → σ → Option (Frame × σ)) (c : Conn σ)
+    (calls : List BufCall) (hf : ∀ b ∈ calls, b.fits) :
+    Conn.run decR decW c (calls.map BufCall.toCall) = Conn.run decR decW c (calls.map BufCall.plain) ∧
+    Conn.wireEvents decR decW c (calls.map BufCall.toCall) = Conn.wireEvents decR decW c (calls.map BufCall.plain) := by
+  have : calls.map BufCall.toCall = calls.map BufCall.plain := by
+    apply List.map_congr_left
+    intro b hb
+    have h := hf b hb
+    cases b with
+    | read b err => simp only [BufCall.toCall, BufCall.plain, window_eq_chunk b h]
+    | write b n err => simp only [BufCall.toCall, BufCall.plain, window_eq_chunk b h]
+    | close err => rfl
+    | timers => rfl
+  rw [this]
+  exact ⟨rfl, rfl⟩
+
+open ConfModel.CallerBuf in
+/-- … and after every call the caller finds in its whole array (in front of the window, in it,
+beyond `n`, in the capacity region) what the inner connection / it itself had put there, next to
+the inner connection's own `(n, err)` -/
+theorem caller_array_untouched (b : BCall) (h : b.fits) (err : IOErr) :
+    (BufCall.read b err).callerSees = b.before.take b.off ++ b.chunk ++ b.before.drop (b.off + b.chunk.length) ∧
+    (BufCall.read b err).callerSees.length = b.before.length ∧
+    Conn.result (BufCall.read b err).plain.inner = (b.chunk.length, err, b.chunk) :=
+  ⟨rfl, array_length b h, rfl⟩
+
+open ConfModel.CallerBuf in
+/-- non-vacuity: the second `Read` lands where the first one's header fragment was; the array
+was refilled with 0xEE in between -/
+example :
+    (⟨[0xA5, 0xA5, 0xA5, 0xA5, 0xA5, 0xA5], 1, [0, 0, 4]⟩ : BCall).fits ∧
+    (⟨[0xEE, 0xEE, 0xEE, 0xEE, 0xEE, 0xEE], 0, [8, 0, 0, 0, 0, 1]⟩ : BCall).fits ∧
+    (BufCall.read ⟨[0xA5, 0xA5, 0xA5, 0xA5, 0xA5, 0xA5], 1, [0, 0, 4]⟩ .ok).toCall = .read [0, 0, 4] .ok ∧
+    (BufCall.read ⟨[0xEE, 0xEE, 0xEE, 0xEE, 0xEE, 0xEE], 0, [8, 0, 0, 0, 0, 1]⟩ .ok).toCall = .read [8, 0, 0, 0, 0, 1] .ok ∧
+    (BufCall.read ⟨[0xA5, 0xA5, 0xA5, 0xA5, 0xA5, 0xA5], 1, [0, 0, 4]⟩ .ok).callerSees = [0xA5, 0, 0, 4, 0xA5, 0xA5] := by
+  decide
 
 end ConfModel.Props.C15
